@@ -29,6 +29,7 @@ CONSTANTS
     SharedPacker,   \* TRUE: every session of the client uses one packer instance (one resolution cache)
     RearmGuard,     \* TRUE: after re-arming the deadline the uplink re-checks that shutdown has not begun
     Rejected,       \* targets the router rejects: a session whose first packet names one fails to initialise
+    Unresolvable,   \* domain names whose lookup fails (NXDOMAIN): the packet is dropped, the cache must not change
     Keyed           \* "addr": sessions keyed by client address (NAT relays); "sid": keyed by client session id, following
                     \* the client's latest address (Shadowsocks 2022 session relays)
 
@@ -177,11 +178,11 @@ PackChk(s) ==
 \* the packet is dropped ("Failed to pack packet") and the uplink goes back to the channel without re-arming
 PackRes(s) ==
     /\ upc[s] = "res"
-    /\ IF spc = "idle"
+    /\ IF spc = "idle" /\ cur[s] \notin Unresolvable
          THEN /\ rip' = [rip EXCEPT ![s] = IpOf(cur[s])] /\ upc' = [upc EXCEPT ![s] = "sto"]
               /\ act' = [n |-> "PackRes", s |-> s, out |-> "ok"]
          ELSE /\ rip' = rip /\ upc' = [upc EXCEPT ![s] = "idle"]
-              /\ act' = [n |-> "PackRes", s |-> s, out |-> "cancelled"]
+              /\ act' = [n |-> "PackRes", s |-> s, out |-> IF spc = "idle" THEN "failed" ELSE "cancelled"]
     /\ UNCHANGED <<table, state, ch, chOpen, ipc, first, cur, dest, dl, sock, pk, cli, seen, has, sent, back, spc, rloop, nsend, nreply, ntimer>>
 PackSto(s) ==
     /\ upc[s] = "sto"
